@@ -49,4 +49,16 @@ m = {
     "not_applicable": na,
 }
 json.dump(m, open(os.path.join(V, "MANIFEST.json"), "w"), indent=1)
-print(f"{len(checks)} checks, {len(na)} not claimed")
+# merged known-findings file
+kf = {"comment": "Genuine defects of j2inn/libhaystack found by the checks (merged from known/*.json by mkmanifest.py). "
+                 "`findings` with status open are recorded, not repaired: the check prints a KNOWN-FINDING line for each one "
+                 "that still reproduces and exits 0.  `fixed` entries record repairs (fix: commits in /repo) and suppress nothing.",
+      "findings": [], "fixed": []}
+kd = os.path.join(V, "known")
+for f in sorted(os.listdir(kd)):
+    if f.endswith(".json"):
+        j = json.load(open(os.path.join(kd, f)))
+        kf["findings"] += j.get("findings", [])
+        kf["fixed"] += j.get("fixed", [])
+json.dump(kf, open(os.path.join(V, "known_findings.json"), "w"), indent=1)
+print(f"{len(checks)} checks, {len(na)} not claimed, {len(kf['findings'])} known findings, {len(kf['fixed'])} fixed")
